@@ -84,6 +84,7 @@ def kwargs_dict(ex, st, with_options):
     items = {}
     if with_options:
         items['options'] = user_options(ex, st)
+        st.ghost['user_options'] = items['options']
     return ex.alloc(st, 'dict', {'items': items, 'open': False},
                     {'owner': 'FRESH', 'name': 'kwargs'})
 
@@ -428,6 +429,9 @@ def make_on_outcomes(fname, fields, statuses, tol_names=('FEASTOL', 'ABSTOL',
             if o.kind == 'raise':
                 et, msg, line = o.val
                 summ['raises'][et] = summ['raises'].get(et, 0) + 1
+                key = '%s@%s' % (et, line)
+                summ.setdefault('raise_sites', {})
+                summ['raise_sites'][key] = summ['raise_sites'].get(key, 0) + 1
                 ex.oblige(st, 'exception-type', et in allowed_exc, None,
                           'only TypeError/ValueError leave %s (%s raised at '
                           'line %s)' % (fname, et, line),
@@ -483,10 +487,20 @@ def check_result(ex, st, d, status, line, fname, fields, statuses, tol_names,
     real = lambda k_t: z3.ToReal(k_t[1]) if k_t[0] == 'int' else k_t[1]
     ft, at, rt = [real(ex.num(st, F(x))) for x in tol_names[:3]]
     mk, mt = ex.num(st, F(tol_names[3]))
-    itn, itv = num_or_none(ex, st, d['iterations'], 'iterations')
-    ob('iterations-bound', z3.And(z3.Not(itn), itv >= 0,
-                                  itv <= z3.ToReal(mt)),
-       "0 <= result['iterations'] <= options['maxiters']")
+    if 'iterations' in d:
+        itn, itv = num_or_none(ex, st, d['iterations'], 'iterations')
+        ob('iterations-bound', z3.And(z3.Not(itn), itv >= 0,
+                                      itv <= z3.ToReal(mt)),
+           "0 <= result['iterations'] <= options['maxiters']")
+    else:
+        # no 'iterations' field (cpl/cp): the bound is stated on the loop
+        # counter at the return site
+        it = F('iters')
+        if it is not None:
+            kk, tt = ex.num(st, it)
+            ob('iterations-bound', z3.And(tt >= 0, tt <= mt),
+               "the iteration counter at the return satisfies 0 <= iters "
+               "<= options['maxiters']")
     dl = dims_lists(ex, st, fid0)
     slist = dl[2] if dl else None
     for key in svec:
@@ -632,6 +646,11 @@ def coneqp_setup(sc):
         for nm in ('xnewcopy', 'xdot', 'xaxpy', 'xscal', 'ynewcopy', 'ydot',
                    'yaxpy', 'yscal'):
             fr[nm] = None
+        if sc.get('customy'):
+            fr['A'] = Unknown('operator A', role='opA')
+            for nm, role in (('ynewcopy', 'xnewcopy'), ('ydot', 'xdot'),
+                             ('yaxpy', 'xaxpy'), ('yscal', 'xscal')):
+                fr[nm] = Unknown('user ' + nm, role=role)
         fr['kwargs'] = kwargs_dict(ex, st, sc.get('options', False))
         ex.axioms.append(SYM_AXIOM)
         st.ghost['scenario'] = sc
@@ -639,6 +658,7 @@ def coneqp_setup(sc):
 
 
 CONEQP_SCENARIOS = {
+    'customy-nob': {'customy': True, 'b': False, 'kktsolver': 'callable'},
     'defaults': {},
     'options+initvals': {'options': True, 'initvals': ['x', 's', 'y', 'z'],
                          'kktsolver': 'str'},
